@@ -152,3 +152,226 @@ def check_c04(tier, seed):
     R.assumptions = ["'compiles' is the verdict of the real Go type checker on the rendered package; Lean contains no model of go/types"]
     R.level = "proof"
     return R.finish("cd lean && lake build KV.Props.C04 && lake env lean <audit of Props/C04 theorems>", TRUSTED)
+
+# ------------------------------------------------------------------------------------------------ runtime
+
+def dependents(ret, provs):
+    """provider index -> set of provider indices that (transitively) depend on it, through the supplier map"""
+    sup = PC.suppliers(ret, provs)
+    direct = collections.defaultdict(set)      # producer key -> consumers
+    def key(s):
+        return ('P', s[1]) if s[0] == 'P' else s
+    for i, p in enumerate(provs):
+        if p['kind'] == 0:
+            for t in p['req']:
+                if t in sup:
+                    direct[key(sup[t])].add(('P', i))
+        else:
+            for fname, ft in p['fields']:
+                if p['sty'] in sup:
+                    direct[key(sup[p['sty']])].add(('F', i, fname))
+    out = {}
+    for i, p in enumerate(provs):
+        if p['kind'] != 0:
+            continue
+        seen, todo = set(), [('P', i)]
+        while todo:
+            k = todo.pop()
+            for c in direct.get(k, ()):
+                if c not in seen:
+                    seen.add(c); todo.append(c)
+        out[i] = set(c[1] for c in seen if c[0] == 'P')
+    return out
+
+def build_specs(S, tier, rng):
+    """run specs per accepted declaration: fault-free (with and without delays), every needed fallible provider
+    failing alone, cancellation before the call and at provider events"""
+    specs = []
+    for k, line in S["ok"]:
+        E = PC.parse_edump(S["model"][k])
+        ret, provs = G.parse_decl(line)
+        sup = PC.suppliers(ret, provs)
+        need, _ = PC.needed(ret, provs, sup)
+        needed_p = sorted(x[1] for x in need if x[0] == 'P')
+        vids = S["E"].M.value_ids.get(k, set())
+        kc = PC.k_conditions(E)
+        name = "Init%d" % k
+        pid = lambda i: "D%dP%d" % (k, i)
+        base = dict(Name=name, k=k)
+        specs.append(dict(base, kind="plain"))
+        if len(E["threads"]) > 1:
+            d = {pid(i): rng.randint(0, 3) for i in needed_p if i not in vids}
+            specs.append(dict(base, kind="delays", DelayIn=d))
+        fallible = [i for i in needed_p if provs[i]['e'] and i not in vids]
+        for f in fallible[: (2 if tier == "quick" else 6)]:
+            specs.append(dict(base, kind="fail", fail=f, Fail={pid(f): True}, Timeout=1500))
+            if len(E["threads"]) > 1:
+                # let the failure happen while the others are slow: exercises the cancellation paths
+                d = {pid(i): 5 for i in needed_p if i != f and i not in vids}
+                specs.append(dict(base, kind="fail", fail=f, Fail={pid(f): True}, DelayIn=d, Timeout=1500))
+        if 0 in E["args"]:
+            to = 500 if kc["K7"] else 1500
+            specs.append(dict(base, kind="cancel", CancelOn="before", Timeout=to))
+            evs = [i for i in needed_p if i not in vids]
+            for i in evs[: (2 if tier == "quick" else 5)]:
+                specs.append(dict(base, kind="cancel", CancelOn="enter:" + pid(i), DelayIn={pid(j): 3 for j in evs}, Timeout=to))
+    return specs
+
+def run_runtime(S, tier, seed):
+    if "runtime" in S:
+        return S["runtime"]
+    rc, out = need_runner(S)
+    if rc != 0:
+        S["runtime"] = (None, None, "the runner does not build: " + out[-800:])
+        return S["runtime"]
+    rng = G.SplitMix64(seed * 31 + 5)
+    specs = build_specs(S, tier, rng)
+    clean = [{k: v for k, v in s.items() if k in ("Name", "Fail", "DelayIn", "CancelOn", "Hold", "Timeout")} for s in specs]
+    results, stderr = S["E"].run_specs(clean, timeout=1200)
+    S["runtime"] = (specs, results, stderr)
+    return S["runtime"]
+
+def judge_runtime(R, S, tier, seed, props):
+    """property-level judgement of every run; props: subset of {C02, C03, C06, C07, C08}"""
+    specs, results, err = run_runtime(S, tier, seed)
+    if specs is None:
+        R.violation("runtime runs impossible: " + err, {"kind": "correspondence-broken", "correspondence": "rendered package + generated injectors compile", "detail": err})
+        return 0, 0
+    stats = collections.Counter()
+    for sp, rs in zip(specs, results):
+        k = sp["k"]; line = S["E"].decls[k]
+        ret, provs = G.parse_decl(line)
+        E = PC.parse_edump(S["model"][k])
+        kc = PC.k_conditions(E)
+        vids = S["E"].M.value_ids.get(k, set())
+        pid = lambda i: "D%dP%d" % (k, i)
+        ev = rs.get("Events") or []
+        entered = collections.Counter(e["ID"] for e in ev if e["Kind"] == "enter")
+        failed = [e["ID"] for e in ev if e["Kind"] == "fail"]
+        stats[sp["kind"]] += 1
+        def viol(prop, fid, text, extra=None):
+            if prop not in props:
+                return
+            rp = {"kind": "input", "failing_input": line, "injector": sp["Name"], "spec": {a: b for a, b in sp.items() if a not in ("k",)},
+                  "observed": {a: rs.get(a) for a in ("Returned", "Term", "IsZero", "Err", "Leaked", "LeakedAt", "Panic")},
+                  "events": ev[:60], "model_emission": S["model"][k],
+                  "reproduce": "render the declaration (vlib/render.py), run kessoku, build cmd/run, feed the spec as one JSON line"}
+            if extra:
+                rp.update(extra)
+            if fid:
+                R.finding(fid, text, rp)
+            else:
+                R.violation(text + "  [declaration: %s]" % line, rp)
+        if rs.get("Panic"):
+            viol(props and sorted(props)[0], None, "%s %s: injector panicked: %s" % (sp["Name"], sp["kind"], rs["Panic"]))
+            continue
+        want = X.herbrand(ret, provs)
+        sup = PC.suppliers(ret, provs)
+        need, _ = PC.needed(ret, provs, sup)
+        needed_p = set(x[1] for x in need if x[0] == 'P')
+        if sp["kind"] in ("plain", "delays"):
+            if not rs["Returned"]:
+                viol("C03", None, "%s: fault-free, uncancelled call does not return (deadlock)" % sp["Name"])
+                continue
+            if rs.get("Err"):
+                viol("C02", None, "%s: fault-free call returned an error: %s" % (sp["Name"], rs["Err"]))
+            if rs.get("Term") != want:
+                viol("C02", None, "%s: result differs from sequential evaluation: got %s, want %s" % (sp["Name"], rs.get("Term"), want))
+            for i, p in enumerate(provs):
+                if p['kind'] != 0 or i in vids:
+                    continue
+                n = entered.get(pid(i), 0)
+                if (i in needed_p and n != 1) or (i not in needed_p and n != 0):
+                    viol("C02", None, "%s: provider %s invoked %d times (needed: %s)" % (sp["Name"], pid(i), n, i in needed_p))
+            if rs.get("Leaked", 0) > 0:
+                viol("C03", None, "%s: %d goroutine(s) of the injector still running after a successful return" % (sp["Name"], rs["Leaked"]))
+            # C01 at run time: every provider entered after all its producers exited
+            exited_at = {e["ID"]: e["Seq"] for e in ev if e["Kind"] == "exit"}
+            for e in ev:
+                if e["Kind"] != "enter":
+                    continue
+                m = re.match(r"D\d+P(\d+)$", e["ID"])
+                i = int(m.group(1))
+                for t in provs[i]['req']:
+                    s = sup.get(t)
+                    while s is not None and s[0] == 'F':      # a field value is produced by the struct's producer
+                        s = sup.get(provs[s[1]]['sty'])
+                    prod = s[1] if s is not None else None
+                    if prod is not None and prod not in vids and provs[prod]['kind'] == 0:
+                        if exited_at.get(pid(prod), 10**9) > e["Seq"]:
+                            viol("C01", None, "%s: %s entered before its producer %s returned" % (sp["Name"], e["ID"], pid(prod)))
+        elif sp["kind"] == "fail":
+            f = sp["fail"]
+            invoked_fail = pid(f) in failed
+            if not rs["Returned"]:
+                viol("C06", None, "%s: provider %s fails and the injector does not return" % (sp["Name"], pid(f)))
+            elif invoked_fail:
+                if not rs.get("Err"):
+                    viol("C06", None, "%s: invoked provider %s returned an error but the injector returned no error (result %s)" % (sp["Name"], pid(f), rs.get("Term")))
+                elif rs["Err"] != "prov:" + pid(f):
+                    fid = "K6-main-ctx-wait-substitutes-error" if (kc["K6"] and rs["Err"] == "ctx:canceled") else None
+                    viol("C06", fid, "%s: provider %s failed but the injector returned %s instead of that failure%s" % (
+                        sp["Name"], pid(f), rs["Err"], " (main-thread ctx-aware wait observed the errgroup's cancellation)" if fid else ""))
+            deps = dependents(ret, provs).get(f, set())
+            if invoked_fail:
+                for d in deps:
+                    if entered.get(pid(d), 0) > 0:
+                        viol("C06", None, "%s: %s was invoked although it depends on the failed provider %s" % (sp["Name"], pid(d), pid(f)))
+            if rs["Returned"] and rs.get("Leaked", 0) > 0:
+                main_fail = any(c["head"] == "P%d" % f for c in E["threads"][0])
+                fid = "K8-main-error-return-leaks-goroutine" if (kc["K8"] and main_fail) else None
+                viol("C08", fid, "%s: after the injector returned (%s failed) %d goroutine(s) remain blocked: %s" % (
+                    sp["Name"], pid(f), rs["Leaked"], [a[:60] for a in (rs.get("LeakedAt") or [])][:2]))
+        elif sp["kind"] == "cancel":
+            if not rs["Returned"]:
+                fid = "K7-no-error-result-hangs-on-cancel" if kc["K7"] else None
+                viol("C07", fid, "%s: context cancelled (%s) and the injector never returns" % (sp["Name"], sp["CancelOn"]))
+                continue
+            if not rs.get("Err"):
+                if rs.get("Term") != want:
+                    fid = "K7-no-error-result-zero-value-on-cancel" if (kc["K7"] or not E["err"]) and len(E["threads"]) > 1 else None
+                    viol("C07", fid, "%s: context cancelled (%s): returned %s with no error (a complete result would be %s)" % (
+                        sp["Name"], sp["CancelOn"], rs.get("Term") or "<zero>", want))
+            elif not E["err"]:
+                viol("C07", None, "%s: error returned by an injector without error result?" % sp["Name"])
+            if rs.get("Leaked", 0) > 0:
+                viol("C08", None, "%s: after returning on cancellation %d goroutine(s) remain blocked" % (sp["Name"], rs["Leaked"]))
+    if err and "DATA RACE" in err:
+        viol = None
+        if "C01" in props:
+            R.violation("the race detector reported a data race in a generated injector", {"kind": "input", "failing_input": "see output", "output": err[-3000:]})
+    return len(specs), stats
+
+
+def run_failure_property(prop, tier, seed, note):
+    R = C.Result(prop, tier, seed)
+    repo_dir = C.ensure_repo_build()
+    lean_obligations(R, prop, repo_dir)
+    S = e2e_stream(tier, seed)
+    diffs = emission_diffs(S)
+    R.oblige("correspondence: text of the emitted functions = model emission (wait flavours, error checks, closes, eg.Wait form) on %d declarations" % len(S["ok"]),
+             not diffs, "%d differ; first: %s" % (len(diffs), [d[1:] for d in diffs[:1]]))
+    n, stats = judge_runtime(R, S, tier, seed, {prop})
+    if diffs and not R.violations:
+        i, l, a, b = diffs[0]
+        R.violation("emitted code differs from the model's emission on %d declarations; no run of the compiled injectors violated the property" % len(diffs),
+                    {"kind": "correspondence-broken", "correspondence": "KV.planDumpE vs harness/extract of *_band.go", "case": l, "model": a, "impl": b})
+    specs, results, _ = S.get("runtime", (None, None, None))
+    if specs:
+        R.samples = [{"declaration": S["E"].decls[sp["k"]], "spec": {a: b for a, b in sp.items() if a != "k"},
+                      "observed": {a: rs.get(a) for a in ("Returned", "Term", "Err", "Leaked")}} for sp, rs in list(zip(specs, results))[:400:57]]
+    multi = sum(1 for k, l in S["ok"] if " | " in S["model"][k] or "go=[]" not in S["model"][k])
+    R.coverage.update({"evaluations": n, "distinct_nontrivial": len(set(S["extract"].values())), "programs": len(S["ok"]), "traces_validated_against_impl": n,
+                       "disagreements_checked": len(diffs), "runs_by_kind": dict(stats) if stats else {}, "multi_threaded_programs": multi,
+                       "rule": "every model-accepted seeded declaration is rendered, generated by the real CLI, compiled, and run under: fault-free (plain and with random provider latencies), each needed fallible provider failing alone (fast and while the others are slow), cancellation before the call and at provider entries; distinct = distinct emitted structures; non-trivial = every run with >= 1 goroutine, a failure or a cancellation"})
+    R.assumptions = [note, "schedules of the real runtime are steered only through provider latencies, failures and cancellation points; the model predicts a set of outcomes and the run must satisfy the property"]
+    return R.finish("cd lean && lake build KV.Props.%s && lake env lean <audit of Props/%s theorems>" % (prop, prop), TRUSTED)
+
+def check_c06(tier, seed):
+    return run_failure_property("C06", tier, seed, "clause 2 (identity of the error) is false of the generator: known finding K6, proved as C06_identity_neg")
+
+def check_c07(tier, seed):
+    return run_failure_property("C07", tier, seed, "false for injectors without an error result: known finding K7, proved as C07_neg")
+
+def check_c08(tier, seed):
+    return run_failure_property("C08", tier, seed, "false after a main-thread provider-error return: known finding K8, proved as C08_neg")
